@@ -438,6 +438,7 @@ pub fn corr_opts(ctx: &mut Ctx, directed: bool) {
     long_streams(ctx);
     sha_key_types(ctx);
     placeholder_member(ctx);
+    weight_types(ctx);
 
     // ---------- edge: weight <= 0 ---------------------------------------------------------------------
     ctx.begin_case("pmh3 weight 0 (hash_item asserts) / pmh3a weight 0 (skipped)");
@@ -471,6 +472,56 @@ pub fn corr_opts(ctx: &mut Ctx, directed: bool) {
     }
 }
 
+
+/// The weight TYPE of the generic entry points (`hash_item<F>`, `hash_weigthed_idxmap<_, F>`, `hash_weigthed_hashmap<_, F>`): f32, u32, u64
+/// and usize weights must give the signature of the same set with the weights converted to f64 (what the model receives)
+pub fn weight_types(ctx: &mut Ctx) {
+    for c in 0..ctx.n(12, 120) {
+        let mut rng = ctx.rng.fork();
+        let m = [2usize, 4, 16, 64][c as usize % 4];
+        let n = [1usize, 3, 9, 40][(c as usize / 4) % 4];
+        let ids = gen_ids(&mut rng, n);
+        ctx.begin_case(&format!("pmh weight types m={} n={}", m, n));
+        ctx.mark_nontrivial();
+        ctx.count("weight types f32 / u32 / u64 / usize");
+        macro_rules! run { ($wt:ty, $mk:expr, $name:expr) => {{
+            let mk = $mk;
+            let ws: Vec<$wt> = (0..ids.len()).map(|i| mk(i, &mut rng)).collect();
+            let wf: Vec<f64> = ws.iter().map(|w| num::ToPrimitive::to_f64(w).unwrap()).collect();
+            let items: Vec<(u64, f64)> = ids.iter().cloned().zip(wf.iter().cloned()).collect();
+            let mut imap: IndexMap<u64, $wt> = IndexMap::new();
+            let mut hmap: HashMap<u64, $wt> = HashMap::new();
+            for (i, x) in ids.iter().enumerate() { imap.insert(*x, ws[i]); hmap.insert(*x, ws[i]); }
+            let idc = ids.clone(); let wsc = ws.clone();
+            let a: Res = catch(std::panic::AssertUnwindSafe(move || { let mut h = ProbMinHash3::<u64, FnvHasher>::new(m, INIT); for (i, x) in idc.iter().enumerate() { h.hash_item(*x, &wsc[i]); } (h.get_signature().clone(), h.verif_registers()) }));
+            ctx.op(&format!("pmh3 new a {} {}", m, INIT));
+            for (id, w) in &items { ctx.op(&format!("pmh3 item a {}", tok_fnv(*id, *w))); }
+            emit(ctx, "pmh3", "a", &a);
+            let outs: Vec<(&str, Res)> = vec![
+                ("ProbMinHash3::hash_weigthed_idxmap", catch(std::panic::AssertUnwindSafe(|| { let mut h = ProbMinHash3::<u64, FnvHasher>::new(m, INIT); h.hash_weigthed_idxmap(&imap); (h.get_signature().clone(), h.verif_registers()) }))),
+                ("ProbMinHash3::hash_weigthed_hashmap", catch(std::panic::AssertUnwindSafe(|| { let mut h = ProbMinHash3::<u64, FnvHasher>::new(m, INIT); h.hash_weigthed_hashmap(&hmap); (h.get_signature().clone(), h.verif_registers()) }))),
+                ("ProbMinHash3a::hash_weigthed_idxmap", catch(std::panic::AssertUnwindSafe(|| { let mut h = ProbMinHash3a::<u64, FnvHasher>::new(m, INIT); h.hash_weigthed_idxmap(&imap); (h.get_signature().clone(), h.verif_registers()) }))),
+                ("ProbMinHash3a::hash_weigthed_hashmap", catch(std::panic::AssertUnwindSafe(|| { let mut h = ProbMinHash3a::<u64, FnvHasher>::new(m, INIT); h.hash_weigthed_hashmap(&hmap); (h.get_signature().clone(), h.verif_registers()) }))),
+            ];
+            for (name, r) in outs.iter() {
+                let same = match (&a, r) { (Ok(x), Ok(y)) => x.0 == y.0 && x.1.iter().map(|v| v.to_bits()).eq(y.1.iter().map(|v| v.to_bits())), _ => false };
+                if !same {
+                    ctx.oracle_failure(serde_json::json!({"kind":"impl_violates_property","what":"entry points disagree for a non-f64 weight type","weight_type":$name,"entry":name,"m":m,"n":ids.len()}));
+                }
+            }
+            let rs: Res = catch(std::panic::AssertUnwindSafe(|| { let mut h = ProbMinHash3aSha::<u64>::new(m, INIT); h.hash_weigthed_idxmap(&imap); (h.get_signature().clone(), h.verif_registers()) }));
+            ctx.op(&format!("pmh3 new s {} {}", m, INIT));
+            ctx.op(&format!("pmh3 batch s {}", items.iter().map(|(id, w)| tok_sha(*id, *w)).collect::<Vec<_>>().join(" ")));
+            emit(ctx, "pmh3", "s", &rs);
+        }}}
+        match c % 4 {
+            0 => run!(f32, |i: usize, r: &mut Sm64| 0.1f32 + (i % 7) as f32 * 0.37 + (r.below(1000) as f32) * 1e-4, "f32"),
+            1 => run!(u32, |i: usize, r: &mut Sm64| 1 + (i as u32 % 5) + r.below(1000) as u32, "u32"),
+            2 => run!(u64, |i: usize, r: &mut Sm64| 1 + (i as u64 % 3) + (r.next() >> (10 + 5 * (i as u64 % 9))), "u64"),      // up to 2^54: beyond f64's integer precision
+            _ => run!(usize, |i: usize, r: &mut Sm64| 1 + i % 4 + r.below(50) as usize, "usize"),
+        }
+    }
+}
 
 /// The placeholder given to `new` (e.g. 0 for numeric ids) IS a member of the weighted set - first, in the middle or last in the
 /// stream. Every variant and every entry point (item-wise, hash_wset, IndexMap, HashMap) must still give the signature of the model
